@@ -177,6 +177,17 @@ def analyse_heuristic(ctx: Ctx, prog: Program, fn: FuncInfo, label: str) -> int:
         for _, a, b in ivs:
             atoms.extend(a.atoms() + b.atoms())
         facts, notes = _value_range_assumption(it, r, lo, hi, atoms)
+        # a value chosen by scanning the domain (min-cost): the scan must cover [lo, hi] exactly, otherwise a value the contract allows
+        # ('some value of the domain has a positive cost') is never a candidate and the sentinel is branched on
+        for e in r.state.trace:
+            if e.kind == "loop" and e.loop is not None and e.loop.kind == "for" and e.loop.iter_value.__class__.__name__ == "RangeVal":
+                rv_ = e.loop.iter_value
+                chooses = any(isinstance(a, tuple) and a[0] == "lv" and a[2] == e.loop.loop_id for a in atoms)
+                if chooses and not (rv_.start == lo and rv_.stop == hi + ONE and rv_.step == ONE):
+                    ctx.violation("R-PARTITION", fn.path, label, f"selection-range:{where[1]}", where[0],
+                                  f"{label}: the value to branch on is selected by scanning range({show_val(rv_.start)}, {show_val(rv_.stop)}) instead of the whole "
+                                  "domain [lo, hi]: a domain whose only admissible value lies outside the scanned range leaves the 'nothing found' "
+                                  "sentinel, which is then branched on (values outside the domain, duplicated and missing solutions)")
         chain = _chain(ivs, lo, hi, facts)
         desc = ", ".join(f"L{j}=[{show_val(a)}, {show_val(b)}]" for j, a, b in ivs)
         if chain is not None:
@@ -184,7 +195,9 @@ def analyse_heuristic(ctx: Ctx, prog: Program, fn: FuncInfo, label: str) -> int:
                           f"{label}: sub-ranges do not partition [lo, hi]: {chain}; {desc}")
         else:
             ctx.ok("R-PARTITION", f"{inst}:chain", sample={"intervals": desc, "notes": notes})
-        sentinel = _sentinel_value_path(it, r, ivs)
+        # when the chosen value is known (by the scan, under the contract that an admissible value exists) to lie in [lo, hi], the partition
+        # obligations are decided; the sentinel case itself is the contract's concern
+        sentinel = _sentinel_value_path(it, r, ivs) and not notes
         for j, a, b in ivs:
             dec = facts.decide(cmp_cond("<=", a, b))
             if dec is True:
